@@ -41,6 +41,7 @@ import (
 	"github.com/elastos/Elastos.ELA/core/types"
 	common2 "github.com/elastos/Elastos.ELA/core/types/common"
 	"github.com/elastos/Elastos.ELA/core/types/interfaces"
+	"github.com/elastos/Elastos.ELA/dpos/state"
 
 	"verif/chainkit"
 	"verif/evid"
@@ -67,6 +68,9 @@ type scenario struct {
 	// search starts.
 	Guard bool
 	Pre   int
+	// Pow: after the prefix the DPoS state is put into what a RevertToPOW transaction leaves
+	// behind (consensus POW, L frozen), as in C30's p scenarios.
+	Pow bool
 }
 
 func T(label, parent string, txs ...string) bspec {
@@ -84,6 +88,13 @@ func scenarios(tier string) []scenario {
 	guardLive := scenario{Name: "guard-live", Guard: true, Pre: 9, Blocks: []bspec{
 		T("T1", "g"), T("T2", "T1"), T("T3", "T2"), T("T4", "T3"), T("T5", "T4"), T("T6", "T5"), T("T7", "T6"), T("T8", "T7"), T("T9", "T8"),
 		T("F5", "T4"), T("F6", "F5"), T("F7", "F6"), T("F8", "F7"), T("F9", "F8"), T("F10", "F9")}}
+	// the same trunk, consensus reverted to POW with L=3 frozen, a heavier fork rooted at height
+	// 2 (below L) whose first five blocks are already known as a side chain: the last three
+	// arrive in every order and the node must stay on the trunk
+	guardPow := scenario{Name: "guard-live-pow", Guard: true, Pow: true, Pre: 14, Blocks: []bspec{
+		T("T1", "g"), T("T2", "T1"), T("T3", "T2"), T("T4", "T3"), T("T5", "T4"), T("T6", "T5"), T("T7", "T6"), T("T8", "T7"), T("T9", "T8"),
+		T("E3", "T2"), T("E4", "E3"), T("E5", "E4"), T("E6", "E5"), T("E7", "E6"),
+		T("E8", "E7"), T("E9", "E8"), T("E10", "E9")}}
 	trunk3 := []bspec{T("T1", "g"), T("T2", "T1", "tg"), T("T3", "T2", "u1")}
 	q := []scenario{
 		{Name: "valid-heavier-fork", Blocks: append(append([]bspec{}, trunk3...),
@@ -101,6 +112,7 @@ func scenarios(tier string) []scenario {
 		{Name: "there-and-back", Blocks: []bspec{T("T1", "g"), T("A2", "T1", "tg"), T("B2", "T1", "tg2"), T("B3", "B2"),
 			T("A3", "A2", "u1"), T("A4", "A3")}},
 		guardLive,
+		guardPow,
 	}
 	if tier != "thorough" {
 		return q
@@ -122,6 +134,7 @@ func scenarios(tier string) []scenario {
 		{Name: "there-and-back+", Blocks: []bspec{T("T1", "g"), T("T2", "T1", "tg"), T("A3", "T2", "u1"), T("B3", "T2", "u2"), T("B4", "B3"),
 			T("A4", "A3"), T("A5", "A4"), T("B5", "B4"), T("B6", "B5"), T("C3", "T2")}},
 		guardLive,
+		guardPow,
 		{Name: "guard-live-at-L", Guard: true, Pre: 9, Blocks: []bspec{
 			T("T1", "g"), T("T2", "T1"), T("T3", "T2"), T("T4", "T3"), T("T5", "T4"), T("T6", "T5"), T("T7", "T6"), T("T8", "T7"), T("T9", "T8"),
 			T("E4", "T3"), T("E5", "E4"), T("E6", "E5"), T("E7", "E6"), T("E8", "E7"), T("E9", "E8"), T("E10", "E9"), T("G9", "T8"), T("G10", "G9")}},
@@ -399,9 +412,17 @@ func newSystem(name string) chainkit.System {
 	}
 	s := &system{sc: sc, t: buildTree(n, sc), refs: refs, n: n, delivered: make([]bool, len(sc.Blocks)), c: map[string]int{}}
 	for i := 0; i < sc.Pre; i++ {
-		in, orphan, err := n.ProcessBlock(s.t.blocks[i].blk)
-		if err != nil || !in || orphan {
-			evid.Fatalf("C12: scenario %s: prefix block %s: in=%v orphan=%v err=%v", sc.Name, s.t.blocks[i].spec.Label, in, orphan, err)
+		if sc.Pow && s.t.blocks[i].spec.Label[0] != 'T' && n.Chain.GetState().GetConsensusAlgorithm() != state.POW {
+			// trunk complete: the state a RevertToPOW transaction in the tip block leaves behind
+			// (exported fields; a valid RevertToPOW block needs 12 h without blocks)
+			st := n.Chain.GetState()
+			st.ConsensusAlgorithm = state.POW
+			st.DPOSWorkHeight = 0
+			st.RevertToPOWBlockHeight = n.Height()
+		}
+		_, orphan, err := n.ProcessBlock(s.t.blocks[i].blk)
+		if err != nil || orphan {
+			evid.Fatalf("C12: scenario %s: prefix block %s: orphan=%v err=%v", sc.Name, s.t.blocks[i].spec.Label, orphan, err)
 		}
 		s.delivered[i] = true
 	}
@@ -477,6 +498,7 @@ func (s *system) Apply(op string) *chainkit.Fail {
 		return f
 	}
 	disc0 := s.n.Disconnected
+	lBefore := s.n.Chain.GetState().GetLastIrreversibleHeight()
 	inMain, orphan, err := s.n.ProcessBlock(tb.blk)
 	s.delivered[tb.idx] = true
 	reorg := s.n.Disconnected > disc0
@@ -504,6 +526,16 @@ func (s *system) Apply(op string) *chainkit.Fail {
 	}
 	_ = inMain
 
+	// irreversible prefix (guard scenarios): nothing at or below the last irreversible height
+	// recorded before the delivery may be replaced
+	if s.sc.Guard && lBefore > 0 {
+		for k := 0; k < int(lBefore) && k < len(prev); k++ {
+			if k >= len(post) || post[k] != prev[k] {
+				return chainkit.Failf("C12|irreversible|block-at-or-below-L-detached|algo="+s.n.Chain.GetState().GetConsensusAlgorithm().String(),
+					"delivering %s moved the node from %s to %s although the last irreversible height was %d: the block at height %d was replaced", label, labels(prev), labels(post), lBefore, k+1)
+			}
+		}
+	}
 	// valid-chain
 	for i, x := range post {
 		if x.tainted {
